@@ -229,6 +229,9 @@ func checkC11(t TB, c EncSpec) string {
 			failf(t, P, K, c, "module pattern of the WithColor variant differs from the plain one")
 		}
 		cls += " +" + c.Scheme.FG.Model
+		if c.Scheme.Model != "" && (c.Scheme.Model != c.Scheme.FG.Model || c.Scheme.Model != c.Scheme.BG.Model) {
+			cls = c.Fam + " +mixed colour types"
+		}
 		if c.Scheme.Predefined > 0 {
 			cls = c.Fam + fmt.Sprintf(" +predefined%d", c.Scheme.Predefined)
 		}
@@ -287,6 +290,8 @@ func TestC11Sweep(t *testing.T) {
 		// inverted and "foreground looks like white"
 		schemes = append(schemes, &SchemeSpec{FG: bg, BG: fg})
 	}
+	schemes = append(schemes, &SchemeSpec{Model: "gray", FG: ColorSpec{Model: "rgba", V: [4]uint16{200, 0, 0, 255}}, BG: ColorSpec{Model: "nrgba", V: [4]uint16{255, 255, 0, 128}}},
+		&SchemeSpec{Model: "rgba", FG: ColorSpec{Model: "nrgba", V: [4]uint16{10, 200, 30, 128}}, BG: ColorSpec{Model: "gray16", V: [4]uint16{60000, 0, 0, 0}}})
 	base := []EncSpec{
 		{Fam: "qr", Content: BStr("hello world"), A: 3, B: 3}, {Fam: "qr", Content: BStr("0123456789"), A: 0, B: 1},
 		{Fam: "datamatrix", Content: BStr("Data Matrix")}, {Fam: "aztec", Content: BStr("Aztec Code 123"), A: 33},
